@@ -441,6 +441,13 @@ def base_cases(draw):
     c = draw(gen.path_cases(min_frames=2, max_frames=12, min_atoms=1, max_atoms=5, max_step=0.45, specials=False,
                             species_pool=['Li', 'Na', 'S', 'Si', 'O']))
     c['form'] = draw(st.sampled_from(['wrapped', 'unwrapped']))
+    rep = draw(st.sampled_from([1, 1, 1, 4, 7]))
+    if rep > 1:
+        # a larger system: every atom repeated at a small offset, the copies interleaved species by species (17 - 35 atoms, repeated symbols)
+        pth = np.array(c['path'])
+        off = np.arange(rep).reshape(1, rep, 1, 1) * np.array([0.013, 0.007, 0.011]).reshape(1, 1, 1, 3)
+        c['path'] = (pth[:, None, :, :] + off).reshape(pth.shape[0], -1, 3).tolist()
+        c['symbols'] = list(c['symbols']) * rep
     M = np.array(c['lattice']['matrix'])
     sites = draw(gen.site_sets(M, n_min=2, n_max=4, min_sep=1.2))
     sites['radius'] = 0.5
